@@ -518,6 +518,8 @@ def py_sat(pid, v):
         return n == 2
     if pid == 3:
         return not py_eq(v, I(5))
+    if pid == 4:
+        return v[0] == "list" and (len(v[1]) == 0 or not py_eq(v[1][0], I(5)))
     raise ValueError(pid)
 
 
@@ -1459,6 +1461,158 @@ def evaluate_is(ctx, cases, runner):
     return bad, n
 
 
+# ----------------------------------------------------------------------------- histories on annotated variables
+SATS[4] = "satisfying(\\x -> x is list and (len(x) == 0 or x[0] != 5))"
+HIST_TYPES = ["int", "int", "number", "str", "list", "list", "anything", "rational", "float", "nulltype", "struct_instance",
+              ("struct", 0), ("sat", 0), ("sat", 1), ("sat", 2), ("sat", 3), ("sat", 4), ("sat", 4)]
+HIST_VALUES = [NULL, I(0), I(1), I(5), I(7), I(-3), I(2 ** 70), R(1, 2), F(1.5), S("a"), S("ab"), L(), L(I(1)), L(I(1), I(2)),
+               L(I(5), I(2)), L(S("a"), I(1)), X(0, I(1), I(2)), X(1, I(3))]
+OPS = {0: "+", 1: "-", 2: "*", 3: "max", 4: "min", 5: "append"}
+
+
+def hist_value_for(rng, t):
+    """mostly a value of type t"""
+    if rng.random() < 0.2:
+        return rng.choice(HIST_VALUES)
+    good = []
+    for v in HIST_VALUES:
+        try:
+            if py_is_type(t, v):
+                good.append(v)
+        except Incomparable:
+            pass
+    return rng.choice(good) if good else rng.choice(HIST_VALUES)
+
+
+def gen_hist(rng, nsteps):
+    tys = [rng.choice(HIST_TYPES), None, rng.choice(HIST_TYPES)]
+    names = [0, 1, 2]
+    steps = []  # (source, model, writes)
+    for x in names:
+        t = tys[x]
+        v = hist_value_for(rng, t if t is not None else "anything")
+        if t is None:
+            steps.append((f"zz{x} := {v_src(v)}", f"declare seq 0 1 ann var {x} none list 1 {v_model(v)}", []))
+            # `zz1 := v` parses as the one-element sequence? no: a single annotated item is the item itself
+            steps[-1] = (f"zz{x} := {v_src(v)}", f"declare ann var {x} none {v_model(v)}", [])
+        else:
+            steps.append((f"zz{x}: {ty_src(t)} = {v_src(v)}", f"declare ann var {x} some type {ty_model(t)} {v_model(v)}", []))
+    listy = [x for x in names if tys[x] in ("list", ("sat", 4))]
+    for _ in range(nsteps):
+        r = rng.random()
+        x = rng.choice([0, 0, 0, 1, 2, 2])
+        y = rng.choice([n for n in names if n != x])
+        tx = tys[x] if tys[x] is not None else "anything"
+        v = hist_value_for(rng, tx) if rng.random() < 0.6 else rng.choice(HIST_VALUES)
+        w = rng.choice(HIST_VALUES)
+        if r < 0.2:
+            steps.append((f"zz{x} = {v_src(v)}", f"assign var {x} {v_model(v)}", [x]))
+        elif r < 0.32:
+            form = rng.randrange(4)
+            if form == 0:
+                steps.append((f"zz{x}, zz{y} = {v_src(v)}, {v_src(w)}", f"assign seq 0 2 var {x} var {y} list 2 {v_model(v)} {v_model(w)}", [x, y]))
+            elif form == 1:
+                lst = L(v, w, rng.choice(HIST_VALUES))
+                steps.append((f"zz{x}, ...zz{y} = {v_src(lst)}", f"assign seq 0 2 var {x} splat var {y} {v_model(lst)}", [x, y]))
+            elif form == 2:
+                lst = rng.choice([L(v, w), L(v), v])
+                steps.append((f"[zz{y}, zz{x}] = {v_src(lst)}", f"assign seq 1 2 var {y} var {x} {v_model(lst)}", [x, y]))
+            else:
+                lst = rng.choice([L(v, w), X(0, v, w), L(v)])
+                steps.append((f"(zz{x} .+ zz{y}) = {v_src(lst)}", f"assign destr prepend 2 var {x} var {y} {v_model(lst)}", [x, y]))
+        elif r < 0.57:
+            op = rng.choice(list(OPS))
+            opnd = rng.choice([I(1), I(2), I(0), I(-3), R(1, 2), F(1.5), S("a"), L(I(1)), NULL, I(2 ** 70), I(5)])
+            steps.append((f"zz{x} {OPS[op]}= {v_src(opnd)}", f"opassign {x} {op} {v_model(opnd)}", [x]))
+        elif r < 0.67:
+            if rng.random() < 0.5:
+                steps.append((f"every zz{x}, zz{y} = {v_src(v)}", f"every 2 {x} {y} {v_model(v)}", [x, y]))
+            else:
+                steps.append((f"every zz{x} = {v_src(v)}", f"every 1 {x} {v_model(v)}", [x]))
+        elif r < 0.77:
+            op = rng.choice(list(OPS))
+            opnd = rng.choice([I(1), I(2), R(1, 2), F(1.5), S("a"), L(I(1)), I(5)])
+            steps.append((f"every zz{x} {OPS[op]}= {v_src(opnd)}", f"everyop {x} {op} {v_model(opnd)}", [x]))
+        elif r < 0.9:
+            steps.append((f"swap zz{x}, zz{y}", f"swap {x} {y}", [x, y]))
+        else:
+            if not listy:
+                steps.append((f"zz{x} = {v_src(v)}", f"assign var {x} {v_model(v)}", [x]))
+            else:
+                x = rng.choice(listy)
+                i = rng.choice([0, 0, 1, -1, 2, -3, 5])
+                e = rng.choice([I(5), I(5), I(1), S("a"), L()])
+                steps.append((f"zz{x}[{int_src(i)}] = {v_src(e)}", f"setindex {x} {i} {v_model(e)}", [x]))
+    read = "[" + ", ".join(f'try zz{x} catch _ -> "?", try (zz{x} is {ty_src(tys[x] if tys[x] is not None else "anything")}) catch _ -> "e"' for x in names) + "]"
+    stmts = [PRELUDE]
+    for src, _, _ in steps:
+        stmts += [src, read]
+    model = f"hist {len(steps)} " + " ".join(m for _, m, _ in steps)
+    return dict(kind="hist", tys=tys, steps=steps, stmts=stmts, model=model)
+
+
+def evaluate_hists(ctx, hists, runner):
+    res = common.run_prog([h["stmts"] for h in hists], timeout=20.0)
+    mres = common.run_model(runner, [h["model"] for h in hists]) if runner else [None] * len(hists)
+    bad = []
+    stats = {"statements": 0, "raised": 0, "completed": 0, "is_reads": 0, "writes_checked": 0, "model_steps_compared": 0, "by_stmt": {}}
+    for h, r, m in zip(hists, res, mres):
+        rs = r.get("results", [])
+        h["impl"], h["model_says"] = [], m
+        if any(x.get("status") in ("panic", "hang", "abort", "badjson") for x in rs) or r.get("status") in ("hang", "abort"):
+            bad.append(("property", h, r, "a statement on an annotated variable panicked / did not return"))
+            continue
+        msteps = m.split(" | ") if m else None
+        if msteps is not None and len(msteps) != len(h["steps"]):
+            bad.append(("correspondence", h, r, "model runner answer malformed: " + str(m)[:100]))
+            msteps = None
+        flagged = False
+        for k, (src, _, writes) in enumerate(h["steps"]):
+            st, rd = rs[1 + 2 * k], rs[2 + 2 * k]
+            if st.get("status") == "parse" or rd.get("status") != "ok":
+                h["impl"].append(("parse", src))
+                flagged = True
+                break
+            status = "ok" if st["status"] == "ok" else "err"
+            vals = parse_canon(rd["val"])[1]
+            obs = {}
+            for j, x in enumerate((0, 1, 2)):
+                val, flag = vals[2 * j], vals[2 * j + 1]
+                present = not (val[0] == "str" and val[1] == "?")
+                obs[x] = (canon(val) if present else None,
+                          "e" if flag[0] == "str" else str(flag[1]))
+            h["impl"].append((status, {f"zz{x}": o for x, o in obs.items()}))
+            stats["statements"] += 1
+            stats["raised" if status == "err" else "completed"] += 1
+            kind = src.split(" ")[0] if src.startswith(("every", "swap")) else ("index" if "[" in src.split("=")[0] and src.startswith("zz") else "op" if any(f" {o}= " in src for o in OPS.values()) else "assign/declare")
+            stats["by_stmt"][kind] = stats["by_stmt"].get(kind, 0) + 1
+            stats["is_reads"] += 3
+            # the property itself: a statement that completed leaves every variable it wrote inside its type
+            if status == "ok":
+                for x in writes:
+                    stats["writes_checked"] += 1
+                    if obs[x][0] is not None and obs[x][1] != "1" and not flagged:
+                        flagged = True
+                        h["oracle"] = f"after `{src}` completed, zz{x} is <declared type> read {obs[x][1]}"
+                        bad.append(("property", h, r, h["oracle"]))
+            if msteps is not None and not flagged:
+                ms = msteps[k].split(" ", 1)
+                mstore = {}
+                if len(ms) > 1 and ms[1].strip():
+                    for item in split_store(ms[1]):
+                        x, _, rest = item.partition("=")
+                        val, _, flag = rest.rpartition(":")
+                        mstore[int(x)] = (val, flag)
+                mobs = {x: mstore.get(x, (None, None)) for x in (0, 1, 2)}
+                stats["model_steps_compared"] += 1
+                same = ms[0] == status and all(mobs[x][0] == obs[x][0] and (obs[x][0] is None or mobs[x][1] == obs[x][1]) for x in (0, 1, 2))
+                if not same:
+                    flagged = True
+                    h["oracle"] = "the in-language reads of `x is T` after completed writes are all true"
+                    bad.append(("correspondence", h, r, f"step {k} `{src}`: model {msteps[k]} vs implementation {status} {obs}"))
+    return bad, stats
+
+
 # ----------------------------------------------------------------------------- run
 def run(ctx):
     runner = common.standard_prelude(ctx)
@@ -1468,6 +1622,9 @@ def run(ctx):
     is_cases = gen_is_cases()
     bad2, n_is = evaluate_is(ctx, is_cases, runner)
     report(ctx, bad2)
+    hists = [gen_hist(ctx.rng, ctx.rng.randrange(5, 16)) for _ in range(ctx.n(320, 3000))]
+    bad3, hstats = evaluate_hists(ctx, hists, runner)
+    report(ctx, bad3)
     kinds = {}
     for c in cases:
         ks = set()
@@ -1481,12 +1638,13 @@ def run(ctx):
     samples = [{"program": c["src"], "implementation": show_match(c["impl"]), "coq_model": show_match(c["model_says"])}
                for c in (ok_cases[::max(1, len(ok_cases) // 8)][:8] + [c for c in cases if c.get("impl", ("x",))[0] == "err"][:4])]
     ctx.coverage.update({
-        "evaluations": len(cases) + n_is,
+        "evaluations": len(cases) + n_is + hstats["statements"],
         "distinct_nontrivial": len(distinct) + sum(1 for c in is_cases if c["kind"] == "is"),
         "rule": "pattern cases: distinct by (context, pattern(s), value) and non-trivial = some arm has nesting depth >= 1 (a sequence, annotation, "
                 "alternative, operator or struct pattern) and the implementation returned a match or raised; plus the full (value x type) `is` table",
         "samples": samples,
-        "pattern_cases": len(cases), "is_cases": n_is,
+        "pattern_cases": len(cases), "is_cases": n_is, "histories": len(hists), "history_stats": hstats,
+        "history_sample": [{"statements": [x for x in h["stmts"][1::2]], "implementation": h["impl"][:6]} for h in hists[:2]],
         "impl_outcomes": stats, "by_context": {k: sum(1 for c in cases if c["ctx"] == k) for k in sorted({c["ctx"] for c in cases})},
         "by_pattern_kind": dict(sorted(kinds.items())),
         "parse_rejected_examples": [c["src"] for c in cases if c.get("impl", ("x",))[0] == "parse"][:5],
